@@ -85,7 +85,7 @@ Shape(t, vc) ==
     [] t.k \in {"slice", "array"} ->
          IF t.e.k \in NumKinds \cup {"bool"}
          THEN << "arr:" \o ArrayTypeOf(t.e.k) >>
-         ELSE << "list" >> \o Repeat(Shape(t.e, "one"), Count(vc)) \o << "end" >>
+         ELSE << "list" >> \o Repeat(Shape(t.e, "one"), IF t.k = "array" THEN 3 ELSE Count(vc)) \o << "end" >>   \* an array always has its 3 elements
     [] t.k = "map" ->
          (* a map with boolean keys has at most two entries *)
          LET n == IF t.key.k = "bool" /\ Count(vc) > 2 THEN 2 ELSE Count(vc) IN
